@@ -116,6 +116,15 @@ REVERTS = [
     ("DAG path models must reject k <= 0", ["C19"]),
     ("MinFlowDecompCycles must reject a non-conserving flow", ["C19"]),
     ("greedy solution of node-weighted kFlowDecomp must carry its weights", ["C01"]),
+    ("greedy flow decomposition must respect weight_type=int", ["C02"]),
+    ("a failed (re-)solve must not leave a stale cached solution", ["C13"]),
+    ("greedy pre-check of kFlowDecomp must count constraint edges", ["C03"]),
+    ("elements_to_ignore_percentile must not drop", ["C10"]),
+    ("subgraph-scanning lower bound must skip windows", ["C03"]),
+    ("safe sequences must tolerate edges that lie on no source-to-sink walk", ["C06"]),
+    ("minimum searches over k must go beyond the number of edges when constraints", ["C03", "C04", "C09"]),
+    ("path-length and edge-position variables must not be integer", ["C10"]),
+    ("MinSetCover must not drop a selected subset", ["C15"]),
 ]
 
 
